@@ -238,9 +238,37 @@ def check(case, res):
     return vs, True
 
 
+CLI_PROBES = ["break;", "continue;", 'print "after-break";', "for k in 1 to 3 loop", "print k;", "end loop;",
+              "n = 0;", "while n < 3 loop", "n = n + 1;", "if n == 2 then", "continue;", "end if;", "print n;", "end loop;",
+              't1.concat(7);', 'print t1.count();', 'i1 = "s";', 'e1 = "s";', "print typeof(i1) typeof(e1);"]
+
+
+def cli_scenarios(tier):
+    """the same error programs typed into the interactive command, followed by probe statements"""
+    out = []
+    n = 0
+    step = 3 if tier == "thorough" else 41
+    for meta, prog in programs("quick"):
+        n += 1
+        if n % step:
+            continue
+        if any(w in ("begin-hreturn",) for w in meta["chain"]) or meta["fail"].startswith("return"):
+            continue      # a top-level return prints its value in interactive mode: covered by C19
+        lines = (DECL7 + "\n" + FDECL + "\n" + ctl.btext(prog)).split("\n") + CLI_PROBES
+        out.append(("%s|%s#%d" % ("/".join(meta["chain"]) or "top", meta["fail"], n), lines))
+    return out
+
+
 def run(tier):
     t0 = time.time()
     res = explore(PROP + "-" + tier, gen_factory(tier), check, chunk=150, deadline=t0 + (2400 if tier == "thorough" else 420))
+    # the interactive statement loop of the bloc command has its own error handling: drive it for real
+    from . import c19
+    exe, env = c19.exe_env()
+    col = c19.Collector()
+    c19.interactive_pass(col, exe, env, cli_scenarios(tier), tag="cli-interactive")
+    res.merge(col.res)
+    res.parts.append({"part": "bloc -i transcripts", "runs": col.res.evaluations})
     rule = ("every chain of depth 0..3 of wrappers {for, while, forall, if, begin with each handler list, begin whose handler re-raises / fails / breaks / "
             "continues / returns} around every failing operation (raise ea/eb, 1/0, raise out_of_range, non-catchable index error, failing function, "
             "function failing inside its own loop, failing argument, error in for begin/end/step, while/if condition, return/assignment expression), "
